@@ -78,6 +78,12 @@ func metaSpec(class string, name string, ver int, hookBase string) v1alpha1.Comp
 		}
 	case "ok-finalize":
 		sp.Hooks.Finalize = &v1alpha1.Hook{Webhook: &v1alpha1.Webhook{URL: &url}}
+	case "ok-resync": // legal but unusual resync periods: zero, negative, one second
+		rp := []int32{0, -5, 1}[ver%3]
+		sp.ResyncPeriodSeconds = &rp
+	case "ok-customize": // a customize hook selecting all configmaps: the related informer is opened by the first sync
+		curl := url + "-customize"
+		sp.Hooks.Customize = &v1alpha1.Hook{Webhook: &v1alpha1.Webhook{URL: &curl}}
 	case "badparent": // no such parent resource (and no CRD)
 		sp.ParentResource.Resource = "nonesuch"
 	case "nostatus": // parent CRD without the status subresource
@@ -94,7 +100,7 @@ func metaSpec(class string, name string, ver int, hookBase string) v1alpha1.Comp
 	return sp
 }
 
-var metaClasses = []string{"ok", "ok", "ok2", "ok-etag", "ok-finalize", "badparent", "nostatus", "badchild", "nohooks", "badwebhook", "badselector"}
+var metaClasses = []string{"ok", "ok", "ok2", "ok-etag", "ok-finalize", "ok-resync", "ok-customize", "badparent", "nostatus", "badchild", "nohooks", "badwebhook", "badselector"}
 
 func TestVerifMeta(t *testing.T) {
 	seed, n := vs.Params(40)
@@ -108,6 +114,9 @@ func TestVerifMeta(t *testing.T) {
 		sim := vs.NewSim(metaDefs)
 		hook := vs.NewHookServer(sim)
 		hook.Handler = func(name string, req map[string]interface{}) vs.HookAnswer {
+			if strings.HasSuffix(name, "-customize") {
+				return vs.HookAnswer{Code: 200, Body: []byte(`{"relatedResources":[{"apiVersion":"v1","resource":"configmaps"}]}`)}
+			}
 			return vs.HookAnswer{Code: 200, Body: []byte(`{"status":{"seen":true},"children":[]}`)}
 		}
 		hookBase := strings.TrimSuffix(*hook.URL(""), "/")
@@ -146,7 +155,7 @@ func TestVerifMeta(t *testing.T) {
 			m := map[string]int{}
 			for _, e := range sim.LogCopy() {
 				if e.Verb == "hook" {
-					m[e.Hook]++
+					m[strings.TrimSuffix(e.Hook, "-customize")]++ // a customize call is a call on behalf of that instance
 				}
 			}
 			return m
@@ -217,8 +226,10 @@ func TestVerifMeta(t *testing.T) {
 			ev["panic"] = panicked
 			// which instances are running now, with which spec version
 			running := vs.M{}
+			instances := vs.M{} // identity of each hosted instance: an untouched controller keeps its instance
 			var wantPaths []string
 			for n2, pc := range mc.parentControllers {
+				instances[n2] = fmt.Sprintf("%p", pc)
 				u := ""
 				if pc.cc.Spec.Hooks != nil && pc.cc.Spec.Hooks.Sync != nil && pc.cc.Spec.Hooks.Sync.Webhook != nil && pc.cc.Spec.Hooks.Sync.Webhook.URL != nil {
 					u = *pc.cc.Spec.Hooks.Sync.Webhook.URL
@@ -254,6 +265,7 @@ func TestVerifMeta(t *testing.T) {
 			}
 			sort.Strings(called)
 			ev["running"] = running
+			ev["instances"] = instances
 			ev["called"] = called
 			rc, infs := factory.VerifCounts()
 			sort.Strings(infs)
